@@ -536,6 +536,11 @@ def run(tier):
         res = p.map(opcodes_chunk, tasks, chunksize=1)
         n = sum(r[0] for r in res)
         bad = [b for r in res for b in r[1]]
+        # unsigned-only operands (RST n, IN A,(n), OUT (n),A) in the negative base are outside the quantifier
+        # ("negative where a signed operand is meaningful"): not obligations (F15 is the finding about them under C01)
+        excluded = [b for b in bad if b[4] and 'm' in b[4] and b[6].split()[0].upper() in ('RST', 'IN', 'OUT')]
+        bad = [b for b in bad if b not in excluded]
+        n -= len(excluded)
         dom = {'domain': 'all opcode paths x %d operand byte values x %d base indicators x 4 base/case configs x addresses %s, Opcodes=ALL, both directions' % (len(values), len(BASES), list(addrs)),
                'size': n, 'visited': n, 'complete': not quick}
         if quick:
